@@ -239,8 +239,8 @@ CHECKS = {
     "C09": {
         "test": "TestC09", "level": "exploration", "engine": "fault",
         "technique": "fault injection over generated workloads with a watchdog: bounded responsiveness after the injected failures stop, confirmed by a stable-blocked-state test on two goroutine dumps (rapid)",
-        "quick": {"shards": 16, "n": 80, "timeout": 1200},
-        "thorough": {"shards": 16, "n": 2500, "timeout": 3400},
+        "quick": {"shards": 12, "n": 80, "timeout": 1200, "extra": [{"test": "TestC09W", "n": 120, "shards": 6}]},
+        "thorough": {"shards": 12, "n": 2500, "timeout": 3400, "extra": [{"test": "TestC09W", "n": 6000, "shards": 6}]},
         "floor": {"quick": 300, "thorough": 8000},
         "replay_runs": 2,
         "replay_timeout": 600,
